@@ -251,8 +251,8 @@ __CPROVER_ensures(g_bcontent ==> (g_bk < user_key->size ==> lkey->kstart[g_bk] =
   if (in_un <= 300) { CANARY(); } \
 }
 H_LKEY_INIT(h_lkey_init, 0, VERIF_U32_MAX - 8, 0)
-/* concrete key lengths: empty, short, 2-byte length prefix (u + 8 >= 128), last inline (u + 13 == 200), first heap */
-H_LKEY_INIT(h_lkey_init_0, 0, 0, 1)
+/* concrete key lengths: one byte, short, 2-byte length prefix (u + 8 >= 128), last inline (u + 13 == 200), first heap */
+H_LKEY_INIT(h_lkey_init_1, 1, 1, 1)
 H_LKEY_INIT(h_lkey_init_5, 5, 5, 1)
 H_LKEY_INIT(h_lkey_init_120, 120, 120, 1)
 H_LKEY_INIT(h_lkey_init_187, 187, 187, 1)
